@@ -5,7 +5,8 @@ open TmVerif.Proto TmVerif.Diff
 
 /-! Line protocol of C27.
 
-* `mid a b`              → `ai,bi,snake` | `fatal`            exact mirror of `middle`
+* `mid a b`              → `ai,bi,snake opt|notopt` | `fatal`  exact mirror of `middle`; `opt`: the split
+                            lies on an optimal path (hypothesis of `C27_script_minimal_partial`)
 * `lcsx a b`             → `d:i:e;d:i:e…` | `fatal`            exact mirror of `lcs`
 * `lcs a b chunks`       → `ok <cost>` | `bad <why>`           verdict on the chunks the Go `lcs` returned:
                             they transform `a` into `b` and their cost is `|a|+|b|-2·dpLcs a b`
@@ -68,7 +69,11 @@ def handle (args : List String) : Option String :=
   | ["mid", a, b] => do
     let a ← parseInts a; let b ← parseInts b
     match middle a b with
-    | some (x, y, s) => some s!"{x},{y},{s}"
+    | some (x, y, s) =>
+      -- the hypothesis `OptimalSplit` of `C27_script_minimal_partial`, evaluated on this instance
+      let opt := x + s ≤ a.length ∧ y + s ≤ b.length ∧ (a.drop x).take s = (b.drop y).take s ∧
+        dpLcs (a.take x) (b.take y) + s + dpLcs (a.drop (x + s)) (b.drop (y + s)) = dpLcs a b
+      some s!"{x},{y},{s} {if opt then "opt" else "notopt"}"
     | none => some "fatal"
   | ["lcsx", a, b] => do
     let a ← parseInts a; let b ← parseInts b
@@ -95,7 +100,7 @@ def handle (args : List String) : Option String :=
     let l ← parseText l; let r ← parseText r; let t ← parseText g
     if t.isEmpty != (l == r) then some "violates: the diff is empty but the texts differ (or the converse)"
     else some "holds"
-  | ["judge", g, "::", "mid", a, b] => do
+  | ["judge", g, _, "::", "mid", a, b] => do
     let a ← parseInts a; let b ← parseInts b
     match parseTriple g with
     | none => some s!"violates: middle answered {g}"
